@@ -14,6 +14,27 @@ NMAX = 20
 LD = np.longdouble
 TOL = 1e-9
 
+# squared normalisation constants (n+1)·(2 if m≠0), asked from the model (`C13 normsq`) once per run
+NORMSQ = {}
+
+
+def load_normsq(ctx):
+    """The rational model values are multiplied by sqrt(normSq n m) to give the value the code returns; normSq is
+    the model's own definition (the one `normalisation_unit` / `zernikeR_eq_model` are about), not a Python copy."""
+    pairs = [(n, m) for n in range(NMAX + 1) for m in range(-n, n + 1, 2)]
+    out = ctx.model(['C13 normsq %d %d' % nm for nm in pairs])
+    for nm, line in zip(pairs, out):
+        if not line.startswith('ok '):
+            raise MachineryError('model answered %r to normsq %r' % (line[:60], nm))
+        NORMSQ[nm] = Fraction(line[3:])
+        ctx.traces_validated += 1
+    ctx.count('normsq-from-model', len(pairs))
+
+
+def norm_factor(n, m):
+    q = NORMSQ[(n, m)]
+    return np.sqrt(LD(q.numerator) / LD(q.denominator))
+
 
 # =============================================================================================
 # Part A: index maps
@@ -42,6 +63,19 @@ def expected_ansi(nmax):
     ns = [np.full(n + 1, n, dtype=np.int64) for n in range(nmax + 1)]
     ms = [np.arange(-n, n + 1, 2, dtype=np.int64) for n in range(nmax + 1)]
     return np.concatenate(ns), np.concatenate(ms)
+
+
+def doc_noll(i):
+    """the documented Noll mode of index i >= 1 in closed form, exact integer arithmetic (for indices too large to enumerate)"""
+    n = (math.isqrt(8 * (i - 1) + 1) - 1) // 2          # tri(n) < i <= tri(n+1)
+    j = i - n * (n + 1) // 2 - 1
+    a = 2 * ((j + 1) // 2) if n % 2 == 0 else 2 * (j // 2) + 1
+    return n, (a if i % 2 == 0 else -a)
+
+
+def doc_ansi(i):
+    n = (math.isqrt(8 * i + 1) - 1) // 2
+    return n, 2 * (i - n * (n + 1) // 2) - n
 
 
 def parse_pairs(line):
@@ -108,6 +142,35 @@ def check_index_maps(ctx, hz):
     ctx.case({'index-maps': 'noll 1..%d, ansi 0..%d' % (N, N)}, ('index-forward', N))
     ctx.count('index:noll_to_zernike', N); ctx.count('index:ansi_to_zernike', N + 1); ctx.count('index:zernike_to_ansi', N + 1)
 
+    # ---- far indices, up to the bound of `noll_order_float_safe` / `ansi_order_float_safe` (2i-1 < 2^48): windows around the first
+    # index of a row, where the float square root is closest to the decision threshold, and random indices inside rows
+    far_lines, far_slots = [], []
+    rows_far = [int(x) for x in ctx.rng.integers(1000, 16000000, size=ctx.scale(40, 400))] + [16000000, 11863283, 4194304, 2 ** 23 - 1]
+    for n in rows_far:
+        T = n * (n + 1) // 2
+        for lo, hi, doc, fn, name, key in ((T - 2, T + 5, doc_noll, hz.noll_to_zernike, 'noll', 'noll-order'),
+                                           (T - 3, T + 4, doc_ansi, hz.ansi_to_zernike, 'ansi', 'ansi-order')):
+            starts = [lo] + [int(T + 1 + ctx.rng.integers(0, n)) for _ in range(2)]
+            for st in starts:
+                w = (st, st + (hi - lo if st == lo else 2))
+                got = []
+                for i in range(*w):
+                    g = call_index(fn, i)
+                    got.append(g)
+                    if g != doc(i):
+                        ctx.violation(key, '%s_to_zernike(%d) = %r, the documented ordering gives %r' % (name, i, g, doc(i)), {'what': name, 'i': i})
+                far_slots.append((len(far_lines), name, w[0], got))
+                far_lines.append('C13 %s %d %d' % (name, w[0], w[1]))
+                ctx.count('index:far-%s' % name, w[1] - w[0])
+    out = ctx.model(far_lines)
+    for idx, name, lo, got in far_slots:
+        a, b = parse_pairs(out[idx])
+        for k, g in enumerate(got):
+            ctx.traces_validated += 1
+            if g != (int(a[k]), int(b[k])):
+                ctx.disagree('C13 %s far' % name, {'i': lo + k, 'impl': repr(g), 'model': [int(a[k]), int(b[k])]})
+    ctx.case({'far-index-windows': '%d rows up to n = 1.6e7 (index 1.3e14)' % len(rows_far)}, ('index-far', len(rows_far)))
+
     # ---- zernike_to_noll (brute-force search in the code): all pairs with n <= n_small, random pairs above
     n_small = ctx.scale(100, 300)
     n_big = int(ctx.scale(600, 1900))
@@ -130,6 +193,34 @@ def check_index_maps(ctx, hz):
         if got != lookup[(n, m)]:
             ctx.violation('noll-inverse', 'zernike_to_noll(%d,%d) = %r, expected %d' % (n, m, got, lookup[(n, m)]), {'what': 'tonoll', 'n': n, 'm': m})
     ctx.count('index:zernike_to_noll', len(pairs) + len(sample_big))
+
+    # ---- pairs that are no Zernike indices (|m| > n or n - |m| odd): the search must fail with the documented ValueError
+    # (theorem `zernikeToNoll_none_iff`: the model's search returns none exactly for these)
+    invalid = [(n, m) for n in range(0, 13) for m in range(-n - 3, n + 4) if abs(m) > n or (n - abs(m)) % 2]
+    for n in [int(x) for x in ctx.rng.integers(13, 80, size=ctx.scale(12, 60))]:
+        invalid += [(n, n + 1), (n, -n - 2), (n, (n + 1) % 2), (n, -(n - 1)), (n, int(ctx.rng.integers(-n - 5, n + 6)) // 2 * 2 + (n + 1) % 2)]
+    real_invalid = {}
+    for (n, m) in invalid:
+        try:
+            got = hz.zernike_to_noll(n, m)
+            real_invalid[(n, m)] = repr(got)
+            ctx.violation('noll-invalid-pair', 'zernike_to_noll(%d,%d) = %r although (%d,%d) is not a valid pair of Zernike indices' % (n, m, got, n, m),
+                          {'what': 'tonoll-invalid', 'n': n, 'm': m})
+        except ValueError as e:
+            real_invalid[(n, m)] = 'raises'
+            ctx.count('index:zernike_to_noll-invalid:ValueError')
+        except Exception as e:      # noqa
+            real_invalid[(n, m)] = 'raises'
+            ctx.count('index:zernike_to_noll-invalid:' + type(e).__name__)
+            ctx.violation('noll-invalid-error-type', 'zernike_to_noll(%d,%d) raises %s: %s  instead of the ValueError "Could not find noll index" of the code' % (
+                n, m, type(e).__name__, e), {'what': 'tonoll-invalid', 'n': n, 'm': m})
+    out = ctx.model(['C13 tonoll1 %d %d' % nm for nm in invalid])
+    for nm, line in zip(invalid, out):
+        ctx.traces_validated += 1
+        mdl = 'raises' if line == 'err value' else line
+        if mdl != 'raises' or real_invalid[nm] != 'raises':
+            ctx.disagree('C13 tonoll1', {'n': nm[0], 'm': nm[1], 'impl': real_invalid[nm], 'model': line})
+    ctx.count('index:zernike_to_noll-invalid', len(invalid))
     ctx.case({'zernike_to_noll': 'all pairs n<=%d, %d sampled pairs up to n=%d' % (n_small, len(sample_big), n_big)}, ('index-tonoll', n_small))
 
     # ---- correspondence with the model (T3: exhaustive on the same range)
@@ -335,7 +426,11 @@ def build(case):
     raise MachineryError('unknown grid kind %r' % k)
 
 
-def pts_line(pts):
+def pts_line(pts, case=None):
+    if case is not None and case.get('kind') == 'polar-separated':
+        ang = case['ang']
+        return 'C13 pts sep %s %s %s' % (rat_list(case['R']), rat_list([Fraction(c, d) for c, s, d in ang]),
+                                         rat_list([Fraction(s, d) for c, s, d in ang]))
     if pts[0] == 'polar':
         return 'C13 pts polar %s %s %s' % (rat_list(pts[1]), rat_list([Fraction(c, d) for c, s, d in pts[2]]),
                                            rat_list([Fraction(s, d) for c, s, d in pts[2]]))
@@ -407,9 +502,27 @@ def reference(n, m, D, cut, pts, outside):
 
 # ---------------------------------------------------------------------------------------------
 
-def real_values(hz, grid, D, reqs, cache):
-    """one zernike() call per request, in order, against one cache (or none)"""
+def key_name(k):
+    """cache key of the code -> key name of the model's protocol"""
+    if isinstance(k, tuple) and len(k) == 3 and k[0] == 'rad':
+        return 'rad.%d.%d' % (k[1], k[2])
+    if isinstance(k, tuple) and len(k) == 3 and k[0] == 'rad_reduced':
+        return 'red.%d.%d' % (k[1], k[2])
+    if isinstance(k, tuple) and len(k) == 2 and k[0] == 'azim':
+        return 'azim.%d' % k[1]
+    return 'other:%r' % (k,)
+
+
+def is_array(v):
+    return isinstance(v, np.ndarray) and v.ndim > 0
+
+
+def real_values(hz, grid, D, reqs, cache, trace=None):
+    """one zernike() call per request, in order, against one cache (or none).  With `trace` (a list) the cache is
+    inspected after every call: slots added (name -> float or array copy, and the identity of the stored object),
+    slots whose stored object or bytes changed since they were first seen."""
     res = []
+    seen = {}          # name -> (id, bytes or float)
     with warnings.catch_warnings():
         warnings.simplefilter('ignore')
         for n, m, cut in reqs:
@@ -418,6 +531,22 @@ def real_values(hz, grid, D, reqs, cache):
                 res.append(np.array(z, dtype=float).copy())
             except Exception as e:      # noqa
                 res.append('raises-' + type(e).__name__)
+            if trace is not None and cache is not None:
+                added, changed, removed = {}, {}, []
+                for k, v in cache.items():
+                    name = key_name(k)
+                    sig = (id(v), np.asarray(v, dtype=float).tobytes() if is_array(v) else float(v))
+                    val = np.array(v, dtype=float).copy() if is_array(v) else float(v)
+                    if name not in seen:
+                        added[name] = (val, id(v))
+                    elif seen[name] != sig:
+                        changed[name] = (val, id(v))
+                    seen[name] = sig
+                names = set(key_name(k) for k in cache)
+                for name in list(seen):
+                    if name not in names:
+                        removed.append(name); del seen[name]
+                trace.append({'added': added, 'changed': changed, 'removed': removed})
     return res
 
 
@@ -476,11 +605,11 @@ def shrink(hz, case, key, qi):
     return case, None
 
 
-def observe(hz, case):
+def observe(hz, case, trace=None):
     grid, pts = build(case)
     D = case['D']
     cache = {} if case['cache'] else None
-    real = real_values(hz, grid, D, case['reqs'], cache)
+    real = real_values(hz, grid, D, case['reqs'], cache, trace)
     fresh = real if not case['cache'] else [real_values(hz, grid, D, [q], None)[0] for q in case['reqs']]
     outside, amb = cut_info(pts, D)
     both = [reference(n, m, D, cut, pts, outside) for n, m, cut in case['reqs']]
@@ -488,16 +617,171 @@ def observe(hz, case):
     return grid, pts, real, fresh, outside, amb, refs
 
 
+
+# ---------------------------------------------------------------------------------------------
+# the cache, state by state (array-level model `C13 amemo`, per-point model `C13 memo`)
+
+def req_str(reqs):
+    return ','.join('%d:%d:%d' % (n, m, 1 if cut else 0) for n, m, cut in reqs)
+
+
+def cache_axes(case, pts):
+    """(rho, theta) in 80-bit on the axis the radial / azimuthal cache arrays live on"""
+    D = LD(case['D'])
+    if case['kind'] == 'polar-separated':
+        rho = 2 * np.array(case['R'], dtype=LD) / D
+        th = np.array([np.arctan2(LD(s) / LD(d), LD(c) / LD(d)) for c, s, d in case['ang']], dtype=LD)
+    elif pts[0] == 'polar':
+        rho = 2 * np.array(pts[1], dtype=LD) / D
+        th = np.array([np.arctan2(LD(s) / LD(d), LD(c) / LD(d)) for c, s, d in pts[2]], dtype=LD)
+    else:
+        x = np.array(pts[1], dtype=LD); y = np.array(pts[2], dtype=LD)
+        rho = 2 * np.hypot(x, y) / D; th = np.arctan2(y, x)
+    return rho, th
+
+
+def entry_reference(name, rho, th):
+    """what a valid cache holds under a key, from the definition (independent of the recursion and of the model)"""
+    parts = name.split('.')
+    if parts[0] == 'rad':
+        n, m = int(parts[1]), int(parts[2])
+        return radial_reference(n, m, rho), [n, m, False]
+    if parts[0] == 'red':
+        n, m = int(parts[1]), int(parts[2])
+        t = rho * rho
+        S = np.zeros(len(rho), dtype=LD)
+        for e, c in def_coeffs(n, m):
+            S = S + LD(c) * t ** ((e - m) // 2)
+        return S, [n, m, False]
+    if parts[0] == 'azim':
+        m = int(parts[1])
+        A = np.sqrt(LD(2)) * (np.cos(m * th) if m > 0 else np.sin(-m * th))
+        return A, [abs(m), m, False]
+    return None, None
+
+
+def cache_oracle(hz, case, pts, trace):
+    """Property oracle on the cache itself: after the history every slot must hold what the definition gives on its
+    axis, and no slot may have changed after it was stored.  Returns [(name, why, probe request)]."""
+    rho, th = cache_axes(case, pts)
+    final, bad = {}, []
+    for st in trace:
+        for name, (val, _) in st['added'].items():
+            final[name] = val
+        for name, (val, _) in st['changed'].items():
+            final[name] = val
+            ref, probe = entry_reference(name, rho, th)
+            bad.append((name, 'cache slot %s was modified after it was stored' % name, probe))
+        for name in st['removed']:
+            final.pop(name, None)
+    for name, val in final.items():
+        ref, probe = entry_reference(name, rho, th)
+        if ref is None:
+            continue
+        refd = ref.astype(float)
+        v = np.broadcast_to(np.asarray(val, dtype=float), refd.shape) if np.ndim(val) == 0 or np.shape(val) == refd.shape else None
+        if v is None:
+            bad.append((name, 'cache slot %s has shape %r, its axis has %d points' % (name, np.shape(val), len(refd)), probe)); continue
+        scale = max(1.0, float(np.max(np.abs(refd))) if len(refd) else 1.0)
+        err = np.abs(v - refd)
+        if np.isnan(v).any() or (err > TOL * scale).any():
+            j = int(np.nanargmax(np.where(np.isnan(v), np.inf, err)))
+            bad.append((name, 'cache slot %s holds %.12g at axis index %d, the definition gives %.12g' % (name, v[j], j, refd[j]), probe))
+    return bad
+
+
+def parse_amemo(line, nreq):
+    if not line.startswith('ok '):
+        raise MachineryError('model answered %r to an amemo request' % line[:80])
+    steps = line[3:].split('|')
+    if len(steps) != nreq:
+        raise MachineryError('amemo: %d steps for %d requests' % (len(steps), nreq))
+    out = []
+    for stp in steps:
+        f = stp.split(';')
+        res = parse_rat_list(f[0])
+        added, changed = {}, {}
+        for e in f[1:]:
+            name, val = e[1:].split('=', 1)
+            if val.startswith('s:'):
+                item = ('s', Fraction(val[2:]), None)
+            else:
+                ref, arr = val[1:].split(':', 1)
+                item = ('a', parse_rat_list(arr), int(ref))
+            (added if e[0] == '+' else changed)[name] = item
+        out.append((res, added, changed))
+    return out
+
+
+def to_float(q):
+    return float(LD(q.numerator) / LD(q.denominator))
+
+
+def compare_amemo(ctx, case, trace, real, line, values, amb, mags):
+    """state-by-state correspondence of the real cache with the array-level model"""
+    steps = parse_amemo(line, len(case['reqs']))
+    id2ref, ref2id = {}, {}
+    info = {k: v for k, v in case.items() if k != 'reqs'}
+    for qi, ((res, madd, mchg), st, (n, m, cut), z) in enumerate(zip(steps, trace, case['reqs'], real)):
+        ctx.traces_validated += 1
+        here = {'case': info, 'reqs': case['reqs'][:qi + 1], 'step': qi}
+        if set(madd) != set(st['added']) or set(mchg) != set(st['changed']) or st['removed']:
+            ctx.disagree('C13 amemo keys', dict(here, impl={'added': sorted(st['added']), 'changed': sorted(st['changed']), 'removed': st['removed']},
+                                                model={'added': sorted(madd), 'changed': sorted(mchg)}))
+            return
+        for name, (kind, mval, ref) in madd.items():
+            val, ident = st['added'][name]
+            ctx.count('amemo-slot:' + name.split('.')[0] + (':float' if kind == 's' else ':array'))
+            if (kind == 's') != (np.ndim(val) == 0):
+                ctx.disagree('C13 amemo slot-kind', dict(here, key=name, impl='float' if np.ndim(val) == 0 else 'ndarray', model='float' if kind == 's' else 'ndarray'))
+                return
+            if kind == 'a':
+                if id2ref.setdefault(ident, ref) != ref or ref2id.setdefault(ref, ident) != ident:
+                    ctx.disagree('C13 amemo aliasing', dict(here, key=name, detail='the stored ndarray is shared with another slot differently from the model'))
+                    return
+            if not values:
+                continue
+            mv = np.array([to_float(mval)]) if kind == 's' else np.array([to_float(v) for v in mval])
+            rv = np.atleast_1d(np.asarray(val, dtype=float))
+            if name.startswith('azim'):
+                mv = mv * math.sqrt(2.0)
+            if rv.shape != mv.shape or np.isnan(rv).any() or (np.abs(rv - mv) > TOL * max(1.0, float(np.max(np.abs(mv))) if len(mv) else 1.0)).any():
+                ctx.disagree('C13 amemo slot-value', dict(here, key=name, impl=[repr(x) for x in rv[:6]], model=[repr(x) for x in mv[:6]]))
+                return
+        if values and not isinstance(z, str):
+            nf = norm_factor(n, m)
+            mv = np.array([float(nf * (LD(v.numerator) / LD(v.denominator))) for v in res])
+            r = compare_vec(z, mv, mags[qi], amb, cut, len(mv))
+            if r:
+                ctx.disagree('C13 amemo result', dict(here, detail=r[1]))
+                return
+
 def check_values(ctx, hz):
     ncases = ctx.scale(140, 6000)
     cases = directed_cases()
     for k in range(ncases):
         cases.append(gen_case(ctx.rng, big=(ctx.tier == 'thorough' and k % 4 == 0)))
-    lines, slots = [], []
+    lines, slots, amemo_slots, memo_slots = [], [], [], []
     for case in cases:
-        grid, pts, real, fresh, outside, amb, refs = observe(hz, case)
+        trace = [] if case['cache'] else None
+        grid, pts, real, fresh, outside, amb, refs = observe(hz, case, trace)
         npts = len(pts[1])
         bad = judge(case, real, fresh, refs, amb, npts)
+        if trace is not None:
+            # the cache itself: every slot valid and never modified; a spoiled slot is turned into a failing request
+            # history by asking for that mode once more, without cut-off
+            for name, why, probe in cache_oracle(hz, case, pts, trace):
+                ctx.count('cache-slot-spoiled')
+                pc = dict(case, reqs=case['reqs'] + [probe]) if probe else case
+                g2, p2, real2, fresh2, out2, amb2, refs2 = observe(hz, pc)
+                found = [(k, w, qi) for k, w, qi in judge(pc, real2, fresh2, refs2, amb2, len(p2[1])) if qi == len(pc['reqs']) - 1 or not probe]
+                if found:
+                    k, w, qi = found[0]
+                    small, what2 = shrink(hz, pc, k, qi)
+                    ctx.violation(k, (what2 or w) + ' [%s]' % why, small)
+                else:
+                    ctx.disagree('C13 cache-slot', {'case': {k: v for k, v in case.items()}, 'slot': name, 'detail': why})
+                break
         seen = set()
         for key, what, qi in bad:
             if key not in seen:
@@ -510,8 +794,26 @@ def check_values(ctx, hz):
         rr = np.array(pts[1]) if pts[0] == 'polar' else np.hypot(np.array(pts[1]), np.array(pts[2]))
         has0 = bool((rr == 0).any()); hasrim = bool((2 * rr == case['D']).any())
         ctx.count('cases-with-centre-point', int(has0)); ctx.count('cases-with-rim-point', int(hasrim))
-        lines.append(pts_line(pts))
+        lines.append(pts_line(pts, case))
         base_slot = len(slots)
+        if trace is not None and len(trace) == len(case['reqs']):
+            mags = [mag for _, mag in refs]
+            ctx.count('amemo-histories:' + case['kind']); ctx.count('amemo-requests', len(case['reqs']))
+            if pts[0] == 'polar':
+                amemo_slots.append((len(lines), case, trace, real, True, amb, mags))
+                lines.append('C13 amemo new %s %s' % (rat(case['D']), req_str(case['reqs'])))
+                j = int(ctx.rng.integers(0, npts))
+                c, s_, d = pts[2][j]
+                memo_slots.append((len(lines), case, j, real, amb, mags))
+                lines.append('C13 memo %s %s %s %s new %s' % (rat(case['D']), rat(pts[1][j]), rat(Fraction(c, d)), rat(Fraction(s_, d)), req_str(case['reqs'])))
+                ctx.count('memo-histories')
+            else:
+                # Cartesian grids: the cached arrays are irrational (hypot, arctan2); slot names, float/array kinds and
+                # sharing are compared on a one-point stand-in, values are left to the oracle above
+                lines.append('C13 pts polar [1/2] [1/1] [0/1]')
+                amemo_slots.append((len(lines), case, trace, real, False, amb, mags))
+                lines.append('C13 amemo new %s %s' % (rat(case['D']), req_str(case['reqs'])))
+                lines.append(pts_line(pts, case))
         for (n, m, cut), z in zip(case['reqs'], real):
             ctx.count('n-|m|>=4' if n - abs(m) >= 4 else 'n-|m|<4')
             ctx.count('order:%d' % n)
@@ -525,12 +827,27 @@ def check_values(ctx, hz):
         raise MachineryError('generator produced %d ambiguous rim points of %d' % (ctx.boundary_skipped, total_pts))
     # ---- correspondence: the model's exact rational factor times sqrt(normSq) vs the code
     out = ctx.model(lines)
+    for idx, case, trace, real, values, amb, mags in amemo_slots:
+        compare_amemo(ctx, case, trace, real, out[idx], values, amb, mags)
+    for idx, case, j, real, amb, mags in memo_slots:
+        if not out[idx].startswith('ok '):
+            raise MachineryError('model answered %r to %r' % (out[idx][:60], lines[idx][:80]))
+        q = parse_rat_list(out[idx][3:])
+        for qi, ((n, m, cut), z, v) in enumerate(zip(case['reqs'], real, q)):
+            ctx.traces_validated += 1
+            if isinstance(z, str) or (amb[j] and cut):
+                continue
+            mvj = float(norm_factor(n, m) * (LD(v.numerator) / LD(v.denominator)))
+            if np.isnan(z[j]) or abs(z[j] - mvj) > TOL * max(1.0, mags[qi]):
+                ctx.disagree('C13 memo', {'case': {k: v_ for k, v_ in case.items() if k != 'reqs'}, 'reqs': case['reqs'][:qi + 1], 'point': j,
+                                          'impl': repr(z[j]), 'model': repr(mvj)})
+                break
     for idx, case, n, m, cut, z, amb, mag in slots:
         if not out[idx].startswith('ok '):
             raise MachineryError('model answered %r to %r' % (out[idx][:60], lines[idx]))
         q = parse_rat_list(out[idx][3:])
-        norm2 = (n + 1) * (1 if m == 0 else 2)
-        mv = np.array([float(np.sqrt(LD(norm2)) * (LD(v.numerator) / LD(v.denominator))) for v in q])
+        nf = norm_factor(n, m)
+        mv = np.array([float(nf * (LD(v.numerator) / LD(v.denominator))) for v in q])
         ctx.traces_validated += 1
         if isinstance(z, str) or z.shape != mv.shape:
             ctx.disagree('C13 mode', {'case': case, 'req': [n, m, cut], 'impl': z if isinstance(z, str) else 'length %d' % z.size, 'model': 'length %d' % len(mv)},
@@ -771,6 +1088,462 @@ def check_direct(ctx, hz):
                                       'impl': v if isinstance(v, str) else [repr(x) for x in v[:6]], 'model': [repr(x) for x in mv[:6]]})
 
 
+# =============================================================================================
+# Part E: the radial polynomial as a polynomial (model layer `radialPoly` / `radialDef` / `pint01`)
+#
+# The theorems `radial_table`, `radial_poly_eq_def`, `radial_poly_eval`, `radial_orthonormal`, `radial_product_eval` are about
+# the coefficient lists the q-recursion produces symbolically.  The real recursion is run symbolically as well:
+# `zernike_radial(n, m, x)` with `x = numpy.polynomial.Polynomial([0, 1])` executes the code's own `h1, h2, h3`
+# arithmetic on polynomials and returns the polynomial the code computes (float coefficients).
+# =============================================================================================
+
+def poly_pairs():
+    return [(n, m) for n in range(NMAX + 1) for m in range(n + 1) if (n - m) % 2 == 0]
+
+
+def dense_def(n, m):
+    """coefficients of r^0 … r^n of R_n^|m| from the factorial definition (exact integers)"""
+    v = [0] * (n + 1)
+    for e, c in def_coeffs(n, abs(m)):
+        v[e] = c
+    return v
+
+
+def run_poly(hz, case):
+    """symbolic run of the real recursion: one zernike_radial(n, m, x, cache) per request, in order, against one cache or
+    none.  Returns (bad, coefficient vectors observed)."""
+    from numpy.polynomial import Polynomial
+    x = Polynomial([0.0, 1.0])
+    cache = {} if case['cache'] else None
+    bad, obs = [], []
+    for qi, (n, m) in enumerate(case['reqs']):
+        try:
+            with warnings.catch_warnings():
+                warnings.simplefilter('ignore')
+                pz = hz.zernike_radial(n, m, x, cache)
+            co = np.array(pz.coef, dtype=float) if isinstance(pz, Polynomial) else np.atleast_1d(np.array(pz, dtype=float))
+        except Exception as e:      # noqa
+            co = 'raises-' + type(e).__name__
+        obs.append(co)
+        ref = np.array(dense_def(n, m), dtype=float)
+        tag = 'zernike_radial(%d,%d,x%s) as a polynomial in x' % (n, m, ',cache' if case['cache'] else '')
+        if isinstance(co, str):
+            bad.append(('radial-polynomial raises', '%s: %s' % (tag, co), qi)); continue
+        if x.coef.tolist() != [0.0, 1.0]:
+            bad.append(('radial-polynomial input-mutated', '%s changed its argument' % tag, qi)); continue
+        k = max(len(co), len(ref))
+        a = np.zeros(k); a[:len(co)] = co
+        b = np.zeros(k); b[:len(ref)] = ref
+        err = np.abs(a - b)
+        if np.isnan(a).any() or (err > TOL * max(1.0, float(np.max(np.abs(b))))).any():
+            j = int(np.nanargmax(np.where(np.isnan(a), np.inf, err)))
+            bad.append(('radial-polynomial coefficient', '%s: coefficient of x^%d is %.15g, the definition gives %.15g' % (tag, j, a[j], b[j]), qi))
+    return bad, obs
+
+
+def gl_nodes(k):
+    t, w = np.polynomial.legendre.leggauss(k)
+    return (t + 1.0) / 2.0, w / 2.0
+
+
+def run_ortho(hz, case):
+    """∫₀¹ R_n^m R_n'^m r dr by Gauss-Legendre quadrature (exact for the degree) of the real zernike_radial values.
+    Returns (bad, Gram matrix over case['orders'])."""
+    xs, ws = gl_nodes(case['nodes'])
+    m = case['m']
+    cache = {} if case['cache'] else None
+    rows = []
+    bad = []
+    for n in case['orders']:
+        try:
+            with warnings.catch_warnings():
+                warnings.simplefilter('ignore')
+                v = np.array(np.broadcast_to(np.asarray(hz.zernike_radial(n, m, xs, cache), dtype=float), xs.shape)).copy()
+        except Exception as e:      # noqa
+            bad.append(('radial-orthonormality raises', 'zernike_radial(%d,%d,nodes): %s' % (n, m, type(e).__name__), [n, n]))
+            v = np.full(xs.shape, np.nan)
+        rows.append(v)
+    R = np.array(rows)
+    G = (R * (ws * xs)) @ R.T
+    for a, n in enumerate(case['orders']):
+        for b, n2 in enumerate(case['orders']):
+            want = 1.0 / (2 * (n + 1)) if n == n2 else 0.0
+            if not (abs(G[a, b] - want) <= TOL):
+                if not any(k == 'radial-orthonormality' for k, _, _ in bad):
+                    bad.append(('radial-orthonormality', 'integral over [0,1] of R_%d^%d R_%d^%d r dr = %.12g by %d-point Gauss-Legendre '
+                                'quadrature of zernike_radial, expected %.12g' % (n, m, n2, m, G[a, b], case['nodes'], want), [n, n2]))
+    return bad, G
+
+
+def check_polynomials(ctx, hz):
+    rng = ctx.rng
+    pairs = poly_pairs()
+    # -- the range of the tables
+    out = ctx.model(['C13 pairs %d' % NMAX])
+    ctx.traces_validated += 1
+    if out[0] != 'ok ' + ','.join('%d:%d' % nm for nm in pairs):
+        ctx.disagree('C13 pairs', {'nmax': NMAX, 'model': out[0][:200], 'harness': len(pairs)})
+    # -- coefficient lists: recursion (model) vs recursion (code, run symbolically) vs definition
+    cases = [{'what': 'poly', 'cache': False, 'reqs': [list(nm) for nm in pairs]},
+             {'what': 'poly', 'cache': True, 'reqs': [list(nm) for nm in pairs]}]
+    for _ in range(ctx.scale(3, 40)):
+        k = int(rng.integers(5, 60))
+        reqs = []
+        for i in rng.integers(0, len(pairs), size=k):
+            n, m = pairs[int(i)]
+            reqs.append([n, -m if rng.random() < 0.5 else m])
+        if rng.random() < 0.5:
+            reqs += [list(q) for q in reqs[:3]]
+        cases.append({'what': 'poly', 'cache': bool(rng.random() < 0.7), 'reqs': reqs})
+    lines, slots = [], []
+    for nm in pairs:
+        lines.append('C13 defpoly %d %d' % nm)
+    for case in cases:
+        bad, obs = run_poly(hz, case)
+        seen = set()
+        for key, what, qi in bad:
+            if key in seen:
+                continue
+            seen.add(key)
+            small = dict(case, reqs=case['reqs'][:qi + 1])
+            cand = dict(case, reqs=[case['reqs'][qi]])
+            if any(k == key for k, _, _ in run_poly(hz, cand)[0]):
+                small = cand
+            ctx.violation(key, what, small)
+        ctx.count('poly-histories:cache=%s' % case['cache']); ctx.count('poly-requests', len(case['reqs']))
+        for (n, m), co in zip(case['reqs'], obs):
+            ctx.case(None, ('poly', n, abs(m), case['cache']))
+            slots.append((len(lines), case, n, m, co))
+            lines.append('C13 poly %d %d' % (n, m))
+    out = ctx.model(lines)
+    for i, (n, m) in enumerate(pairs):
+        ctx.traces_validated += 1
+        if not out[i].startswith('ok ') or [int(q) if q.denominator == 1 else q for q in parse_rat_list(out[i][3:])] != dense_def(n, m):
+            ctx.disagree('C13 defpoly', {'n': n, 'm': m, 'model': out[i][:200], 'definition': dense_def(n, m)})
+    for idx, case, n, m, co in slots:
+        if not out[idx].startswith('ok '):
+            raise MachineryError('model answered %r to %r' % (out[idx][:60], lines[idx]))
+        mv = np.array([to_float(q) for q in parse_rat_list(out[idx][3:])])
+        ctx.traces_validated += 1
+        k = max(len(mv), 0 if isinstance(co, str) else len(co))
+        if not isinstance(co, str):
+            a = np.zeros(k); a[:len(co)] = co
+            b = np.zeros(k); b[:len(mv)] = mv
+        if isinstance(co, str) or np.isnan(a).any() or (np.abs(a - b) > TOL * max(1.0, float(np.max(np.abs(b))))).any():
+            ctx.disagree('C13 poly', {'n': n, 'm': m, 'cache': case['cache'], 'history': len(case['reqs']),
+                                      'impl': co if isinstance(co, str) else [repr(v) for v in co], 'model': out[idx][3:200]})
+    # -- evaluation of the coefficient list = the pointwise recursion = the code at that point
+    lines, slots = [], []
+    for n, m in pairs:
+        rs = [Fraction(0), Fraction(1), Fraction(1, 2 ** 20)] + [Fraction(int(rng.integers(1, 320)), 256) for _ in range(ctx.scale(2, 6))]
+        with warnings.catch_warnings():
+            warnings.simplefilter('ignore')
+            try:
+                v = np.array(np.broadcast_to(np.asarray(hz.zernike_radial(n, m, np.array([float(r) for r in rs])), dtype=float), (len(rs),)))
+            except Exception as e:      # noqa
+                v = None
+        for j, r in enumerate(rs):
+            slots.append((len(lines), n, m, r, None if v is None else float(v[j])))
+            lines.append('C13 polyeval %d %d %s' % (n, m, r))
+            lines.append('C13 radial %d %d %s' % (n, m, r))
+        ctx.count('polyeval-points', len(rs))
+    out = ctx.model(lines)
+    for idx, n, m, r, v in slots:
+        if not (out[idx].startswith('ok ') and out[idx + 1].startswith('ok ')):
+            raise MachineryError('model answered %r / %r to %r' % (out[idx][:60], out[idx + 1][:60], lines[idx]))
+        ctx.traces_validated += 2
+        if out[idx] != out[idx + 1]:
+            ctx.disagree('C13 polyeval', {'n': n, 'm': m, 'r': str(r), 'peval radialPoly': out[idx], 'radialEval': out[idx + 1]})
+        mv = to_float(Fraction(out[idx][3:]))
+        if v is None or np.isnan(v) or abs(v - mv) > TOL * max(1.0, abs(mv)):
+            ctx.disagree('C13 polyeval', {'n': n, 'm': m, 'r': str(r), 'impl': repr(v), 'model': out[idx][3:]})
+    # -- radial orthonormality: exact integral of the model's product polynomial vs quadrature of the code's values
+    lines, slots = [], []
+    for m in range(NMAX + 1):
+        orders = [n for n in range(m, NMAX + 1, 2)]
+        perm = [orders[int(i)] for i in rng.permutation(len(orders))]
+        case = {'what': 'ortho', 'm': m, 'orders': perm, 'cache': bool(rng.random() < 0.5), 'nodes': 32}
+        bad, G = run_ortho(hz, case)
+        for key, what, nn in bad:
+            small = dict(case, orders=sorted(set(nn)))
+            if not any(k == key for k, _, _ in run_ortho(hz, small)[0]):
+                small = case
+            ctx.violation(key, what, small)
+        ctx.count('ortho-blocks'); ctx.count('ortho-integrals', len(perm) ** 2)
+        for a, n in enumerate(perm):
+            for b, n2 in enumerate(perm):
+                ctx.case(None, ('ortho', m, n, n2))
+                slots.append((len(lines), m, n, n2, float(G[a, b])))
+                lines.append('C13 ortho %d %d %d' % (n, n2, m))
+    out = ctx.model(lines)
+    for idx, m, n, n2, g in slots:
+        if not out[idx].startswith('ok '):
+            raise MachineryError('model answered %r to %r' % (out[idx][:60], lines[idx]))
+        q = Fraction(out[idx][3:])
+        ctx.traces_validated += 1
+        if not (abs(g - to_float(q)) <= TOL):
+            ctx.disagree('C13 ortho', {'n': n, "n'": n2, 'm': m, 'impl (32-point Gauss-Legendre of zernike_radial)': repr(g), 'model': str(q)})
+
+
+# =============================================================================================
+# Part F: make_zernike_basis with a grid, column by column against the array-level model `basisA` (`C13 abasis`)
+# =============================================================================================
+
+_ORDER = {}
+
+
+def documented_mode(ansi, i):
+    if not _ORDER:
+        _ORDER['noll'] = expected_noll(NMAX + 2); _ORDER['ansi'] = expected_ansi(NMAX + 2)
+    a, b = _ORDER['ansi' if ansi else 'noll']
+    j = i if ansi else i - 1
+    return int(a[j]), int(b[j])
+
+
+def gen_abasis_case(rng, big=False):
+    kind = ['polar-points', 'polar-separated'][int(rng.integers(0, 2))]
+    D = gen_D(rng)
+    case = {'what': 'abasis', 'kind': kind, 'D': D, 'cache': True, 'reqs': []}
+    if kind == 'polar-points':
+        case['r'] = gen_radii(rng, D, int(rng.integers(4, 9 if not big else 16)))
+        case['ang'] = [list(gen_angle(rng)) for _ in case['r']]
+    else:
+        case['R'] = gen_radii(rng, D, int(rng.integers(4, 8 if not big else 12)))
+        case['ang'] = [list(gen_angle(rng)) for _ in range(int(rng.integers(1, 5 if not big else 8)))]
+    ansi = bool(rng.random() < 0.5)
+    num = int(rng.integers(1, 13 if not big else 40))
+    lo = 0 if ansi else 1
+    total = (NMAX + 1) * (NMAX + 2) // 2
+    start = int(rng.integers(lo, lo + total - num + 1)) if rng.random() < 0.7 else lo
+    case.update(ansi=ansi, num=num, start=start, cut=[None, True, False][int(rng.integers(0, 3))],
+                use_cache=[None, True, False][int(rng.integers(0, 3))])
+    return case
+
+
+def run_abasis(hz, case):
+    """Returns (bad, columns or None, pts, amb, mags)"""
+    grid, pts = build(case)
+    D = case['D']
+    outside, amb = cut_info(pts, D)
+    cut = True if case['cut'] is None else case['cut']
+    npts = len(pts[1])
+    kw = {}
+    if case['cut'] is not None:
+        kw['radial_cutoff'] = case['cut']
+    if case['use_cache'] is not None:
+        kw['use_cache'] = case['use_cache']
+    tag = 'make_zernike_basis(%d,D=%r,grid,starting_mode=%d,ansi=%r%s) on a %s grid' % (
+        case['num'], D, case['start'], case['ansi'], ''.join(',%s=%r' % kv for kv in kw.items()), case['kind'])
+    before = [np.asarray(c).tobytes() for c in (grid.separated_coords if grid.is_separated else grid.coords)]
+    try:
+        with warnings.catch_warnings():
+            warnings.simplefilter('ignore')
+            B = hz.make_zernike_basis(case['num'], D, grid, case['start'], case['ansi'], **kw)
+            M = B.transformation_matrix
+            M = np.asarray(M.todense()) if hasattr(M, 'todense') else np.asarray(M, dtype=float)
+    except Exception as e:      # noqa
+        return [('basis-grid raises', '%s raises %s: %s' % (tag, type(e).__name__, e), 0)], None, pts, amb, []
+    bad, mags = [], []
+    if M.shape != (npts, case['num']):
+        return [('basis-grid shape', '%s: transformation matrix has shape %r for %d points and %d modes' % (tag, M.shape, npts, case['num']), 0)], None, pts, amb, []
+    after = [np.asarray(c).tobytes() for c in (grid.separated_coords if grid.is_separated else grid.coords)]
+    if before != after:
+        bad.append(('basis-grid input-mutated', '%s changed the coordinates of the grid' % tag, 0))
+    for j in range(case['num']):
+        n, m = documented_mode(case['ansi'], case['start'] + j)
+        ref, mag = reference(n, m, D, cut, pts, outside)
+        mags.append(mag)
+        c = compare_vec(M[:, j], ref, mag, amb, cut, npts)
+        if c and not any(k == 'basis-grid ' + c[0] for k, _, _ in bad):
+            bad.append(('basis-grid ' + c[0], '%s: column %d (documented mode n=%d, m=%d): %s' % (tag, j, n, m, c[1]), j))
+    return bad, M, pts, amb, mags
+
+
+def check_abasis(ctx, hz):
+    rng = ctx.rng
+    angs = [[1, 0, 1], [3, 4, 5], [-5, 12, 13], [0, -1, 1], [-15, -8, 17]]
+    cases = [{'what': 'abasis', 'kind': 'polar-separated', 'D': 1.0, 'R': [0.0, 0.125, 0.25, 0.4375, 0.5, 0.625], 'ang': angs, 'cache': True, 'reqs': [],
+              'ansi': a, 'num': 231, 'start': 0 if a else 1, 'cut': None, 'use_cache': u} for a in (False, True) for u in (None, False)]
+    cases += [{'what': 'abasis', 'kind': 'polar-points', 'D': 1.5, 'r': [0.0, 0.75, 0.125, 0.5, 1.0, 2.0 ** -20], 'ang': angs + [[4, 3, 5]], 'cache': True, 'reqs': [],
+               'ansi': True, 'num': 231, 'start': 0, 'cut': False, 'use_cache': True}]
+    cases += [gen_abasis_case(rng, not ctx.quick()) for _ in range(ctx.scale(40, 600))]
+    lines, slots = [], []
+    for case in cases:
+        bad, M, pts, amb, mags = run_abasis(hz, case)
+        seen = set()
+        for key, what, j in bad:
+            if key in seen:
+                continue
+            seen.add(key)
+            small = dict(case, start=case['start'] + j, num=1)
+            if not any(k == key for k, _, _ in run_abasis(hz, small)[0]):
+                small = dict(case, num=j + 1)
+            ctx.violation(key, what, small)
+        ctx.count('abasis:%s' % case['kind']); ctx.count('abasis:ansi=%r,cut=%r,use_cache=%r' % (case['ansi'], case['cut'], case['use_cache']))
+        ctx.count('abasis-columns', case['num'])
+        for j in range(case['num']):
+            n, m = documented_mode(case['ansi'], case['start'] + j)
+            ctx.case(None, ('abasis', case['kind'], n, m, case['cut'], case['use_cache']))
+        lines.append(pts_line(pts, case))
+        cut = True if case['cut'] is None else case['cut']
+        uc = True if case['use_cache'] is None else case['use_cache']
+        slots.append((len(lines), case, M, amb, mags, cut))
+        lines.append('C13 abasis %d %d %d %d %d %s' % (case['ansi'], case['start'], case['num'], cut, uc, rat(case['D'])))
+    out = ctx.model(lines)
+    for idx, case, M, amb, mags, cut in slots:
+        if not out[idx].startswith('ok '):
+            raise MachineryError('model answered %r to %r' % (out[idx][:60], lines[idx]))
+        cols = out[idx][3:].split('|')
+        brief = {k: v for k, v in case.items() if k not in ('reqs', 'cache')}
+        if len(cols) != case['num']:
+            raise MachineryError('abasis: %d columns for %d modes' % (len(cols), case['num']))
+        for j, col in enumerate(cols):
+            nm, arr = col.split('=', 1)
+            n, m = (int(x) for x in nm.split(':'))
+            ctx.traces_validated += 1
+            if (n, m) != documented_mode(case['ansi'], case['start'] + j):
+                ctx.disagree('C13 abasis mode', dict(brief, column=j, model=[n, m], documented=list(documented_mode(case['ansi'], case['start'] + j))))
+                break
+            if M is None:
+                ctx.disagree('C13 abasis', dict(brief, column=j, impl='raises / wrong shape', model='a column'))
+                break
+            nf = norm_factor(n, m)
+            mv = np.array([float(nf * (LD(v.numerator) / LD(v.denominator))) for v in parse_rat_list(arr)])
+            r = compare_vec(M[:, j], mv, mags[j], amb, cut, len(mv))
+            if r:
+                ctx.disagree('C13 abasis', dict(brief, column=j, mode=[n, m], detail=r[1]))
+                break
+
+
+# =============================================================================================
+# Part G: Field generators of make_zernike_basis(…, grid=None) called on two polar grids in any order, against the
+# array-level model `runGensA` (`C13 gens own`); the model with one shared cache (`shared`) is the D130 behaviour
+# =============================================================================================
+
+def gen_polar_grid(rng, D, like=None):
+    """a polar grid description; `like`: same kind and number of points as that one, other points"""
+    kind = like['kind'] if like else ['polar-points', 'polar-separated'][int(rng.integers(0, 2))]
+    g = {'kind': kind, 'D': D}
+    if kind == 'polar-points':
+        k = len(like['r']) if like else None
+        rs = gen_radii(rng, D, int(rng.integers(3, 8)))
+        while k is not None and len(rs) != k:
+            rs = (rs + [float(rng.integers(1, 200)) / 256.0 * D])[:k] if len(rs) < k else rs[:k]
+        g['r'] = rs; g['ang'] = [list(gen_angle(rng)) for _ in rs]
+    else:
+        k = len(like['R']) if like else None
+        R = gen_radii(rng, D, int(rng.integers(3, 7)))
+        while k is not None and len(R) != k:
+            R = (R + [float(rng.integers(1, 200)) / 256.0 * D])[:k] if len(R) < k else R[:k]
+        g['R'] = R
+        g['ang'] = [list(gen_angle(rng)) for _ in range(len(like['ang']) if like else int(rng.integers(1, 5)))]
+    return g
+
+
+def gen_gens_case(rng):
+    D = gen_D(rng)
+    A = gen_polar_grid(rng, D)
+    B = gen_polar_grid(rng, D, like=A if rng.random() < 0.5 else None)      # same size, other points: a stale cache would go unnoticed by shapes
+    ansi = bool(rng.random() < 0.5)
+    num = int(rng.integers(1, 9))
+    lo = 0 if ansi else 1
+    total = (NMAX + 1) * (NMAX + 2) // 2
+    start = int(rng.integers(lo, lo + total - num + 1)) if rng.random() < 0.7 else lo
+    calls = [[int(rng.integers(0, num)), int(rng.integers(0, 2))] for _ in range(int(rng.integers(2, 2 * num + 4)))]
+    if rng.random() < 0.5:
+        calls = [[j, 0] for j in range(num)] + [[j, 1] for j in range(num)] + calls[:3]
+    return {'what': 'gens', 'D': D, 'A': A, 'B': B, 'ansi': ansi, 'num': num, 'start': start, 'calls': calls,
+            'cut': [None, True, False][int(rng.integers(0, 3))], 'use_cache': [None, True, False][int(rng.integers(0, 3))]}
+
+
+def run_gens(hz, case):
+    """Returns (bad, observed vectors per call, [(pts, amb)] per grid, magnitudes per call)"""
+    D = case['D']
+    built = [build(case['A']), build(case['B'])]
+    info = [cut_info(pts, D) for _, pts in built]
+    cut = True if case['cut'] is None else case['cut']
+    kw = {}
+    if case['cut'] is not None:
+        kw['radial_cutoff'] = case['cut']
+    if case['use_cache'] is not None:
+        kw['use_cache'] = case['use_cache']
+    tag = 'make_zernike_basis(%d,D=%r,None,starting_mode=%d,ansi=%r%s)' % (case['num'], D, case['start'], case['ansi'], ''.join(',%s=%r' % kv for kv in kw.items()))
+    try:
+        gens = hz.make_zernike_basis(case['num'], D, None, case['start'], case['ansi'], **kw)
+        if len(gens) != case['num']:
+            raise ValueError('%d generators' % len(gens))
+    except Exception as e:      # noqa
+        return [('generator-grid raises', '%s raises %s: %s' % (tag, type(e).__name__, e), 0)], None, built, info, []
+    bad, obs, mags = [], [], []
+    for ci, (j, k) in enumerate(case['calls']):
+        grid, pts = built[k]
+        outside, amb = info[k]
+        n, m = documented_mode(case['ansi'], case['start'] + j)
+        try:
+            with warnings.catch_warnings():
+                warnings.simplefilter('ignore')
+                z = np.array(gens[j](grid), dtype=float).copy()
+        except Exception as e:      # noqa
+            z = 'raises-' + type(e).__name__
+        obs.append(z)
+        ref, mag = reference(n, m, D, cut, pts, outside)
+        mags.append(mag)
+        c = compare_vec(z, ref, mag, amb, cut, len(pts[1]))
+        if c and not any(key == 'generator-grid ' + c[0] for key, _, _ in bad):
+            bad.append(('generator-grid ' + c[0], '%s: generator %d (documented mode n=%d, m=%d) called on grid %s (%s, %d points) as call number %d: %s' % (
+                tag, j, n, m, 'AB'[k], case['AB'[k]]['kind'], len(pts[1]), ci, c[1]), ci))
+    return bad, obs, built, info, mags
+
+
+def check_gens(ctx, hz):
+    rng = ctx.rng
+    cases = [gen_gens_case(rng) for _ in range(ctx.scale(60, 1200))]
+    lines, slots = [], []
+    for case in cases:
+        bad, obs, built, info, mags = run_gens(hz, case)
+        seen = set()
+        for key, what, ci in bad:
+            if key in seen:
+                continue
+            seen.add(key)
+            small = dict(case, calls=case['calls'][:ci + 1])
+            for cand in (dict(case, calls=[case['calls'][ci]]), dict(case, calls=[[case['calls'][ci][0], 1 - case['calls'][ci][1]], case['calls'][ci]])):
+                if any(k == key for k, _, _ in run_gens(hz, cand)[0]):
+                    small = cand; break
+            ctx.violation(key, what, small)
+        ctx.count('gens:%s+%s' % (case['A']['kind'], case['B']['kind'])); ctx.count('gens-calls', len(case['calls']))
+        ctx.count('gens:same-size=%r' % (len(built[0][1][1]) == len(built[1][1][1])))
+        ctx.count('gens:use_cache=%r' % (case['use_cache'],))
+        cut = True if case['cut'] is None else case['cut']
+        calls = []
+        for j, k in case['calls']:
+            n, m = documented_mode(case['ansi'], case['start'] + j)
+            ctx.case(None, ('gens', case['AB'[k]]['kind'], n, m, cut))
+            calls.append('%d:%d:%d:%d' % (n, m, cut, k))
+        lines.append(pts_line(built[1][1], case['B'])); lines.append('C13 ptsB'); lines.append(pts_line(built[0][1], case['A']))
+        slots.append((len(lines), case, obs, info, mags, cut))
+        lines.append('C13 gens own %s %s' % (rat(case['D']), ','.join(calls)))
+    out = ctx.model(lines)
+    for idx, case, obs, info, mags, cut in slots:
+        if not out[idx].startswith('ok '):
+            raise MachineryError('model answered %r to %r' % (out[idx][:60], lines[idx]))
+        res = out[idx][3:].split('|')
+        brief = {k: v for k, v in case.items() if k != 'calls'}
+        if len(res) != len(case['calls']):
+            raise MachineryError('gens: %d results for %d calls' % (len(res), len(case['calls'])))
+        for ci, ((j, k), arr) in enumerate(zip(case['calls'], res)):
+            n, m = documented_mode(case['ansi'], case['start'] + j)
+            nf = norm_factor(n, m)
+            mv = np.array([float(nf * (LD(v.numerator) / LD(v.denominator))) for v in parse_rat_list(arr)])
+            ctx.traces_validated += 1
+            if obs is None:
+                ctx.disagree('C13 gens', dict(brief, impl='raises', model='values')); break
+            r = compare_vec(obs[ci], mv, mags[ci], info[k][1], cut, len(mv))
+            if r:
+                ctx.disagree('C13 gens', dict(brief, calls=case['calls'][:ci + 1], mode=[n, m], detail=r[1]))
+                break
+
+
 # ---- spellings
 
 def grid_only(rng, big=False):
@@ -974,8 +1747,8 @@ def check_spellings(ctx, hz):
         if not out[idx].startswith('ok '):
             raise MachineryError('model answered %r to %r' % (out[idx][:60], lines[idx]))
         q = parse_rat_list(out[idx][3:])
-        norm2 = (n + 1) * (1 if m == 0 else 2)
-        mv = np.array([float(np.sqrt(LD(norm2)) * (LD(v.numerator) / LD(v.denominator))) for v in q])
+        nf = norm_factor(n, m)
+        mv = np.array([float(nf * (LD(v.numerator) / LD(v.denominator))) for v in q])
         ctx.traces_validated += 1
         r = compare_vec(z, mv, mag, amb, cut, len(mv))
         if r:
@@ -999,11 +1772,15 @@ def run(ctx):
                 'bit-identical afterwards, second pass identical), and every spelling of zernike / zernike_noll / zernike_ansi / make_zernike_basis '
                 '(grid=None generator forms evaluated later on two different grids in any order, starting_mode, ansi, radial_cutoff, use_cache, '
                 'D as int/float/0-d array/np.float64, positional vs keyword), each against the definition for the mode the documented ordering names and against the model. '
+                '(E) the radial polynomial as a polynomial: zernike_radial run on the symbolic argument numpy Polynomial([0,1]) (all 121 pairs n <= 20, any request order, with/without one shared cache) against the factorial coefficients (oracle) and the coefficient lists of the model recursion (radialPoly); peval of the model list = radialEval = the code at sampled radii (0, 1, 2^-20, k/256); the Gram matrix of zernike_radial under 32-point Gauss-Legendre quadrature with weight r against delta/(2(n+1)) (oracle) and the exact integral of the model product polynomial (pint01). '
+                '(F) make_zernike_basis(num, D, grid, starting_mode, ansi, radial_cutoff, use_cache) on unstructured and separated polar grids (all 231 modes directed, random windows of indices, every combination of the keyword defaults): every column against the definition of the mode the documented ordering names (oracle) and against the column of the array-level model basisA (C13 abasis), grid coordinates byte-identical afterwards. '
+                '(G) the Field generators of make_zernike_basis(num, D, None, …) called in random order (some repeatedly) on two polar grids (half of the time of equal size but different points), each call against the definition on the grid it was handed (oracle) and against the model runGensA without a shared cache (C13 gens own). '
                 'Non-trivial = a mode evaluation on a non-empty grid; distinct by (grid kind, n, m, cutoff, cache, centre present, rim present).')
     ctx.assumptions += ['np.hypot / arctan2 / cos / sin / pow are accurate to a few ulp',
                         'float sqrt in the index maps is tied only on the exhaustively compared range',
                         'Cartesian points within 1e-12 (relative, squared) of the rim are not compared (counted as boundary_skipped)']
     t = time.time()
+    load_normsq(ctx)
     check_index_maps(ctx, hz)
     ctx.extra['time_index_s'] = round(time.time() - t, 1); t = time.time()
     check_values(ctx, hz)
@@ -1013,7 +1790,17 @@ def run(ctx):
     check_direct(ctx, hz)
     ctx.extra['time_direct_s'] = round(time.time() - t, 1); t = time.time()
     check_spellings(ctx, hz)
-    ctx.extra['time_spellings_s'] = round(time.time() - t, 1)
+    ctx.extra['time_spellings_s'] = round(time.time() - t, 1); t = time.time()
+    check_polynomials(ctx, hz)
+    ctx.extra['time_polynomials_s'] = round(time.time() - t, 1); t = time.time()
+    check_abasis(ctx, hz)
+    ctx.extra['time_abasis_s'] = round(time.time() - t, 1); t = time.time()
+    check_gens(ctx, hz)
+    ctx.extra['time_gens_s'] = round(time.time() - t, 1)
+    by = {}
+    for d in ctx.disagreements:
+        by[d['stream']] = by.get(d['stream'], 0) + 1
+    ctx.extra['disagreements_by_stream'] = by
 
 
 def replay(ctx, case):
@@ -1021,7 +1808,15 @@ def replay(ctx, case):
     hz = sys.modules['hcipy.mode_basis.zernike']
     what = case.get('what')
     ok = True
-    if what == 'noll':
+    if what == 'noll' and case['i'] > 10 ** 7:
+        got = call_index(hz.noll_to_zernike, case['i'])
+        ok = got == doc_noll(case['i'])
+        print('  noll_to_zernike(%d) = %r, documented %r' % (case['i'], got, doc_noll(case['i'])))
+    elif what == 'ansi' and case['i'] > 10 ** 7:
+        got = call_index(hz.ansi_to_zernike, case['i'])
+        ok = got == doc_ansi(case['i'])
+        print('  ansi_to_zernike(%d) = %r, documented %r' % (case['i'], got, doc_ansi(case['i'])))
+    elif what == 'noll':
         en, em = expected_noll(int(math.isqrt(2 * case['i'])) + 2)
         got = call_index(hz.noll_to_zernike, case['i'])
         ok = got == (en[case['i'] - 1], em[case['i'] - 1])
@@ -1039,9 +1834,33 @@ def replay(ctx, case):
         got = call_index(hz.zernike_to_noll, case['n'], case['m'])
         ok = isinstance(got, int) and call_index(hz.noll_to_zernike, got) == (case['n'], case['m'])
         print('  zernike_to_noll(%d,%d) = %r' % (case['n'], case['m'], got))
+    elif what == 'tonoll-invalid':
+        try:
+            got = hz.zernike_to_noll(case['n'], case['m']); ok = False
+            print('  zernike_to_noll(%d,%d) = %r' % (case['n'], case['m'], got))
+        except ValueError as e:
+            print('  zernike_to_noll(%d,%d) raises ValueError: %s' % (case['n'], case['m'], e))
+        except Exception as e:      # noqa
+            ok = False
+            print('  zernike_to_noll(%d,%d) raises %s: %s' % (case['n'], case['m'], type(e).__name__, e))
     elif what == 'noll-injective':
         seen = set(hz.noll_to_zernike(i) for i in range(1, case['N'] + 1))
         ok = len(seen) == case['N']
+    elif what == 'gens':
+        bad = run_gens(hz, case)[0]
+        for key, what_, _ in bad[:5]:
+            print('  fails:', key, '-', what_)
+        ok = not bad
+    elif what == 'abasis':
+        bad = run_abasis(hz, case)[0]
+        for key, what_, _ in bad[:5]:
+            print('  fails:', key, '-', what_)
+        ok = not bad
+    elif what in ('poly', 'ortho'):
+        bad = (run_poly if what == 'poly' else run_ortho)(hz, case)[0]
+        for key, what_, _ in bad[:5]:
+            print('  fails:', key, '-', what_)
+        ok = not bad
     elif what == 'direct':
         bad = run_direct(hz, case)[0]
         for key, what_, _ in bad[:5]:
